@@ -2,6 +2,7 @@ import XlModel.Ref
 import XlModel.RefApi
 import XlModel.RefMulti
 import XlModel.RefOpts
+import XlModel.RefCF
 import XlModel.Drv.Util
 namespace XlModel.Drv.C20
 open XlModel XlModel.Ref XlModel.Drv
@@ -104,6 +105,12 @@ def step (w : List String) : String :=
     | _, _ => "bad-op"
   | ["opt", k, h] => match OptKind.ofString k, unhexS h with
     | some kind, some s => if optAccepts kind s then "A" else "R"
+    | _, _ => "bad-op"
+  | ["cfref", h] => match unhexS h with
+    | some s => showE hexS (cfPrepare s)
+    | none => "bad-op"
+  | ["swmerge", ha, hb] => match unhexS ha, unhexS hb with
+    | some a, some b => if decodeOk a && decodeOk b then "A" else "R"
     | _, _ => "bad-op"
   | ["cfpair", ha, hb] => match unhexS ha, unhexS hb with
     | some a, some b => match cfUnsetFinds a b with
